@@ -32,9 +32,12 @@ DEVIATIONS = {
     "no_outbox_clear": (["InvNoDup"], {"InvNoDup"}),
     "outbox_cleared_before_push": (["InvNoLoss"], {"InvNoLoss"}),
     "exchange_late": (INVS, {"InvNoLoss", "InvNoPastDiscard", "InvSameDeliveries"}),
+    "link_latency_no_sample": (["InvNoLoss"], {"InvNoLoss"}),
 }
+DEV_CONFS = {"link_latency_no_sample": "ConfsOv"}
 KNOWN_KEY = {"PROP:discarded_past:window_overshoot": "overshoot_then_cross_event_discarded_as_past",
-             "PROP:cross_event_lost:window_overshoot": "overshoot_then_cross_event_stranded_until_end_time"}
+             "PROP:cross_event_lost:window_overshoot": "overshoot_then_cross_event_stranded_until_end_time",
+             "PROP:run_aborted:link_latency_no_sample": "link_latency_distribution_has_no_sample"}
 TICKS = [1_000_000_000, 1_000_000, 1_000, 300_000, 250_250]
 
 
@@ -62,8 +65,7 @@ def mc_plan(tier):
                                                         short="never")),
         ]
     return [
-        ("2 partitions, one-way and two-way links, 4 events", dict(confs="ConfsA", max_ev=4, max_t=3,
-                                                                   short="any")),
+        ("2 partitions, one-way and two-way links, 4 events", dict(confs="ConfsA", max_ev=4, max_t=3)),
         ("2 partitions, one-way and two-way links, horizon 4", dict(confs="ConfsA", max_ev=3, max_t=4,
                                                                     short="any")),
         ("two entities in one partition", dict(confs="ConfsB", max_ev=4, max_t=3, max_lat=1)),
@@ -94,7 +96,7 @@ def model_check(chk: Check, tier, code_dev):
         chk.require(res.ok, f"Windowed.tla with Dev={{}} violates {res.violated} ({name}): the model is wrong")
     cex = []
     for dev, (invs, expect) in DEVIATIONS.items():
-        kw = dict(confs="ConfsOne", max_ev=3, max_t=2, max_lat=1, short="never", dev=[dev])
+        kw = dict(confs=DEV_CONFS.get(dev, "ConfsOne"), max_ev=3, max_t=2, max_lat=1, short="never", dev=[dev])
         cfg = tlc.write_cfg(wd / f"dev_{dev}.cfg", constants=consts(**kw), invariants=invs, deadlock=True)
         res = tlc.run(SPEC / "WindowedMC.tla", cfg, label="C05_mc", timeout=900)
         chk.add_tlc(f"Windowed Dev={{{dev}}}", res, count=False, note="sensitivity run, must violate")
@@ -229,7 +231,7 @@ def random_prog(rng: random.Random, k: int, independent=False) -> Prog:
                 else:
                     evs.append((t + dt, rng.choice(by_part[p]), i))
     prog = Prog(ep=ep, np=np_, links=links, lat=lat, w=w, end_t=end_t, evs=evs, cont=frozenset(cont),
-                override=override).canonical()
+                override=override, real_dist=bool(override) and rng.random() < 0.5).canonical()
     prog.check()
     return prog
 
@@ -279,11 +281,9 @@ class Runner:
             raise RuntimeError(f"reference run raised {ref.error} for {m['prog']}")
         if ref.skips_seq:
             raise RuntimeError(f"reference run discarded events {ref.skips_seq}: program outside the precondition")
-        if par.error and par.error.startswith("WindowLimit"):
+        m["error"] = par.error or ""
+        if par.error and par.error.startswith(("WindowLimit", "DeliveryLimit")):
             self.nonterminating += 1      # judged on the observed logs only
-        elif par.error:
-            self.chk.violation(f"parallel_run_raised:{par.error.split(':')[0]}",
-                               f"ParallelSimulation.run() raised {par.error}", m)
         return tid, par, ref
 
 
@@ -291,14 +291,14 @@ def prog_json(p: Prog):
     return dict(ep=p.ep, np=p.np, links=[list(l) for l in p.links],
                 lat=[[a, b, v] for (a, b), v in sorted(p.lat.items())], w=p.w, end_t=p.end_t,
                 evs=[list(e) for e in p.evs], cont=sorted(p.cont),
-                override=[[a, b, v] for (a, b), v in sorted(p.override.items())])
+                override=[[a, b, v] for (a, b), v in sorted(p.override.items())], real_dist=p.real_dist)
 
 
 def prog_from_json(d) -> Prog:
     return Prog(ep=d["ep"], np=d["np"], links=[tuple(l) for l in d["links"]],
                 lat={(a, b): v for a, b, v in d["lat"]}, w=d["w"], end_t=d["end_t"],
                 evs=[tuple(e) for e in d["evs"]], cont=frozenset(d.get("cont", ())),
-                override={(a, b): v for a, b, v in d.get("override", ())})
+                override={(a, b): v for a, b, v in d.get("override", ())}, real_dist=d.get("real_dist", False))
 
 
 def real_outcome(prog: Prog, par):
@@ -331,7 +331,9 @@ def judge(chk: Check, runner: Runner, code_dev, label="C05_trace"):
             continue
         if v.startswith("PROP:"):
             key = KNOWN_KEY.get(v, v[5:])
-            chk.violation(key, f"{v} at record {pos}: {m['detail']} (origin {m['origin']})",
+            if v == "PROP:run_raised":
+                key = "run_raised:" + m["error"].split(":")[0]
+            chk.violation(key, f"{v} at record {pos}: {m['detail']} {m['error']} (origin {m['origin']})",
                           {"meta": m, "trace": runner.traces[tid - 1]})
         else:
             chk.note_drift(f"trace {tid} ({m['origin']}): {v}; prog={m['prog']}")
@@ -378,7 +380,7 @@ def run(tier, seed, replay=None):
     phases["behaviour_generation"] = round(time.time() - t0, 1)
     t0 = time.time()
     keys = sorted(progs)
-    cap = 500 if tier == "quick" else 6000
+    cap = 500 if tier == "quick" else 2500
     chosen = keys if len(keys) <= cap else rng.sample(keys, cap)
     chk.exhaustive = len(chosen) == len(keys)
     matched = unmatched_hist = 0
@@ -417,7 +419,7 @@ def run(tier, seed, replay=None):
     phases["replay_on_code"] = round(time.time() - t0, 1)
     t0 = time.time()
     # ---- code -> spec ---------------------------------------------------------
-    n_rand = 450 if tier == "quick" else 12000
+    n_rand = 450 if tier == "quick" else 6000
     for k in range(n_rand):
         indep = k % 8 == 7
         p = random_prog(rng, k, independent=indep)
